@@ -81,3 +81,50 @@ def gen_no_autocommit_history(rng, letters=LETTERS):
     ops.append(rng.choice(["commit", key(XK["Return"]), key(XK["space"]), "clear", key(XK["Escape"])]))
     ops += ["getcommit", "getctx"]
     return ops
+
+
+AFFIX = {  # schema -> [(prefix, suffix, letters typed inside)]
+    "luna_pinyin": [(":", ";", LETTERS), ("C:", ";", "abcdefghijklmnopqrstuvwy"), ("P:", ";", LETTERS), ("`", "'", "abcdefghijklmnopqrstuvwy")],
+    "cangjie5": [("`", "'", LETTERS)],
+}
+
+
+def gen_affix_history(rng, schema):
+    """Input that goes through an affix_segmentor / recognizer pattern of the stock schemas (luna_pinyin: `:`..`;`
+    western text, `C:` cangjie lookup, `P:` pinyin, backtick reverse lookup; cangjie5: backtick pinyin lookup): the
+    prefix and suffix become `phony` raw segments that the commit text must skip.  Typed as keys and, because an
+    upper-case prefix cannot be typed into an empty composition, also given through set_input; followed by reads,
+    selections (displayed candidates), paging, caret moves, the suffix, commit_composition and get_commit."""
+    base = schema.replace("_fluid", "")
+    prefix, suffix, letters = rng.choice(AFFIX.get(base, AFFIX["cangjie5"]))
+    body = "".join(rng.choice(letters) for _ in range(rng.choice([0, 1, 2, 2, 3, 4])))
+    ops = ["getctx"]
+    lead = "".join(rng.choice(LETTERS) for _ in range(rng.choice([0, 0, 0, 2, 4])))
+    text = lead + prefix + body
+    if rng.random() < 0.5:
+        ops.append("input " + text.encode().hex())
+    else:
+        ops += [key(ord(ch)) for ch in text]
+    ops.append("getctx")
+    for _ in range(rng.randrange(0, 4)):
+        r = rng.random()
+        if r < 0.3:
+            ops.append(key(ord(rng.choice(letters))))
+        elif r < 0.5:
+            ops.append(rng.choice([key(XK["Down"]), key(XK["Next"]), "page 0", "hl 1", key(XK["Left"]), key(XK["BackSpace"]), "caret 1", "caret 2"]))
+        elif r < 0.6:
+            ops.append(key(ord(suffix)))
+        else:
+            ops.append("getctx")
+    ops.append("getctx")
+    end = rng.random()
+    if end < 0.4:
+        ops += ["commit", "getcommit"]
+    elif end < 0.7:
+        ops += [rng.choice(["sel 0", "selp 0", "sel 1", "selp 1", "sel 2"]), "getctx", "commit", "getcommit"]
+    elif end < 0.85:
+        ops += [key(ord(suffix)), "getctx", "commit", "getcommit"]
+    else:
+        ops += [key(XK["space"]), "getcommit"]
+    ops += ["getctx", "getcommit"]
+    return ops
